@@ -72,7 +72,15 @@ class OpsMixin:
                 return SymFloat(ival=self.neg(v.ival))
             if v.t is not None:
                 return SymFloat(z3.fpNeg(v.t))
-            raise Unsupported("neg of quotient float")
+            if v.quot is not None:
+                return SymFloat(quot=(self.neg(v.quot[0]), v.quot[1]))
+            if v.dec is not None:
+                return SymFloat(dec=(self.not_(v.dec[0]), v.dec[1], v.dec[2]))
+            tv = self.as_tracked(v)
+            if tv.ideal is not None:
+                num, den, eps, exact = tv.ideal
+                return self._unwrap(self._reg(SymFloat(real=z3.simplify(-tv.real), ideal=(-num, den, eps, exact))))
+            return self.mkreal(-tv.real)
         return -v
 
     def must(self, cond):
@@ -259,6 +267,10 @@ class OpsMixin:
         self.add_fact(a.t == q * k + r)
         if k > 0:
             self.add_fact(z3.And(r >= 0, r < k))
+            import math
+            lo, hi = self.ibounds(a.t)
+            self.set_bounds(r, 0, k - 1)
+            self.set_bounds(q, None if lo is None else math.floor(lo / k), None if hi is None else math.floor(hi / k))
         else:
             self.add_fact(z3.And(r <= 0, r > k))
         res = (SymInt(q), SymInt(r))
@@ -313,6 +325,8 @@ class OpsMixin:
                 return self.to_fp(v.ival)
             if v.dec is not None:
                 raise Unsupported("floating-point arithmetic on a decimal-defined symbolic float")
+            if v.real is not None:
+                raise Unsupported("bit-level operation on a real-enclosure symbolic float")
             a, k = v.quot
             return z3.fpDiv(z3.RNE(), self.to_fp(a), z3.FPVal(float(k), F64))
         if isinstance(v, float):
@@ -364,6 +378,9 @@ class OpsMixin:
                     return float(r)
             elif self.int_range_bits(r) is not None:
                 return SymFloat(ival=r)
+        if ia is not None and isinstance(ib, int) and not isinstance(ib, bool) and ib > 0 and t is ast.Mod:
+            r = self.binop(op, ia, ib)
+            return float(r) if isinstance(r, int) else SymFloat(ival=r)
         if t in (ast.Add, ast.Sub):
             # half-integers are exact doubles: keep them as the quotient (n, 2)
             ha, hb = self._halves(a), self._halves(b)
@@ -373,6 +390,13 @@ class OpsMixin:
                     return n / 2
                 if self.int_range_bits(n) is not None and self.must(self.cmp("GtE", n, 0)):
                     return SymFloat(quot=(n, 2))
+        if not (isinstance(a, SymFloat) and a.t is not None) and not (isinstance(b, SymFloat) and b.t is not None) \
+                and t in (ast.Add, ast.Sub, ast.Mult, ast.Div, ast.Mod):
+            for v in (a, b):
+                if isinstance(v, float) and (v != v or abs(v) == float("inf")):
+                    break
+            else:
+                return self.real_binop(t, a, b)
         fa, fb = self.to_fp(a), self.to_fp(b)
         if t is ast.Div:
             if ib is None and self.decide(z3.fpIsZero(fb)):
@@ -404,6 +428,622 @@ class OpsMixin:
             return int(2 * v)
         return None
 
+    # ---------------------------------------------------------------- static intervals (no solver calls)
+    def ibounds(self, t):
+        """sound interval (lo, hi) of an Int/Real term as Fractions (None = unbounded), from the declared ranges of the
+        variables; path conditions are ignored (looser, still sound)"""
+        from fractions import Fraction
+        import math
+        memo = self.ib_memo
+        def ev(t):
+            k = t.get_id()
+            if k in memo:
+                return memo[k][1]
+            r = ev1(t)
+            memo[k] = (t, r)
+            return r
+        def add(a, b):
+            return (None if a[0] is None or b[0] is None else a[0] + b[0], None if a[1] is None or b[1] is None else a[1] + b[1])
+        def neg(a):
+            return (None if a[1] is None else -a[1], None if a[0] is None else -a[0])
+        def mul(a, b):
+            if None in a or None in b:
+                # a point times anything keeps one-sided information only in simple cases: give up
+                if a[0] is not None and a[0] == a[1] and a[0] == 0 or b[0] is not None and b[0] == b[1] and b[0] == 0:
+                    return (Fraction(0), Fraction(0))
+                if a[0] is not None and a[0] == a[1]:
+                    c = a[0]
+                    lo, hi = b
+                elif b[0] is not None and b[0] == b[1]:
+                    c = b[0]
+                    lo, hi = a
+                else:
+                    return (None, None)
+                if c > 0:
+                    return (None if lo is None else lo * c, None if hi is None else hi * c)
+                return (None if hi is None else hi * c, None if lo is None else lo * c)
+            ps = [a[0] * b[0], a[0] * b[1], a[1] * b[0], a[1] * b[1]]
+            return (min(ps), max(ps))
+        def ev1(t):
+            if z3.is_int_value(t):
+                v = Fraction(t.as_long())
+                return (v, v)
+            if z3.is_rational_value(t):
+                v = Fraction(t.numerator_as_long(), t.denominator_as_long())
+                return (v, v)
+            kd = t.decl().kind()
+            if kd == z3.Z3_OP_UNINTERPRETED and t.num_args() == 0:
+                return self.var_bounds.get(t.decl().name(), (None, None))
+            ch = t.children()
+            if kd == z3.Z3_OP_ADD:
+                r = ev(ch[0])
+                for c in ch[1:]:
+                    r = add(r, ev(c))
+                return r
+            if kd == z3.Z3_OP_SUB:
+                r = ev(ch[0])
+                for c in ch[1:]:
+                    r = add(r, neg(ev(c)))
+                return r
+            if kd == z3.Z3_OP_UMINUS:
+                return neg(ev(ch[0]))
+            if kd == z3.Z3_OP_MUL:
+                r = ev(ch[0])
+                for c in ch[1:]:
+                    r = mul(r, ev(c))
+                return r
+            if kd == z3.Z3_OP_DIV:
+                d = ev(ch[1])
+                if d[0] is not None and d[0] == d[1] and d[0] != 0:
+                    return mul(ev(ch[0]), (1 / d[0], 1 / d[0]))
+                return (None, None)
+            if kd == z3.Z3_OP_TO_REAL:
+                return ev(ch[0])
+            if kd == z3.Z3_OP_TO_INT:
+                a = ev(ch[0])
+                return (None if a[0] is None else Fraction(math.floor(a[0])), None if a[1] is None else Fraction(math.floor(a[1])))
+            if kd == z3.Z3_OP_ITE:
+                a, b = ev(ch[1]), ev(ch[2])
+                return (None if a[0] is None or b[0] is None else min(a[0], b[0]),
+                        None if a[1] is None or b[1] is None else max(a[1], b[1]))
+            if kd == z3.Z3_OP_MOD:
+                d = ev(ch[1])
+                if d[0] is not None and d[0] == d[1] and d[0] > 0:
+                    return (Fraction(0), d[0] - 1)
+                return (None, None)
+            if kd == z3.Z3_OP_IDIV:
+                d = ev(ch[1])
+                a = ev(ch[0])
+                if d[0] is not None and d[0] == d[1] and d[0] > 0 and None not in a:
+                    return (Fraction(math.floor(a[0] / d[0])), Fraction(math.floor(a[1] / d[0])))
+                return (None, None)
+            return (None, None)
+        return ev(t)
+
+    def interval_truth(self, cond, depth=0):
+        """True / False when the static intervals alone decide the Bool term, else None"""
+        r = self._interval_truth(cond, depth)
+        if r is None and depth == 0:
+            # a condition over ONE integer variable with a small declared range: decide by exhaustive substitution
+            vs = self._free_consts(cond)
+            if len(vs) == 1:
+                v = vs[0]
+                b = self.var_bounds.get(v.decl().name())
+                if z3.is_int(v) and b is not None and None not in b and b[1] - b[0] < 40:
+                    seen = set()
+                    for k in range(int(b[0]), int(b[1]) + 1):
+                        t = z3.simplify(z3.substitute(cond, (v, z3.IntVal(k))))
+                        if z3.is_true(t):
+                            seen.add(True)
+                        elif z3.is_false(t):
+                            seen.add(False)
+                        else:
+                            return None
+                        if len(seen) == 2:
+                            return None
+                    if len(seen) == 1:
+                        return seen.pop()
+        return r
+
+    def _free_consts(self, t, limit=3):
+        out = {}
+        todo = [t]
+        n = 0
+        while todo:
+            x = todo.pop()
+            n += 1
+            if n > 400:
+                return [None, None, None]
+            if z3.is_const(x):
+                if x.decl().kind() == z3.Z3_OP_UNINTERPRETED:
+                    out[x.get_id()] = x
+                    if len(out) > limit:
+                        break
+            else:
+                todo.extend(x.children())
+        return list(out.values())
+
+    def _interval_truth(self, cond, depth=0):
+        k = cond.decl().kind()
+        ch = cond.children()
+        if k == z3.Z3_OP_TRUE:
+            return True
+        if k == z3.Z3_OP_FALSE:
+            return False
+        if k == z3.Z3_OP_NOT:
+            r = self._interval_truth(ch[0], depth + 1)
+            return None if r is None else not r
+        if k in (z3.Z3_OP_AND, z3.Z3_OP_OR) and depth < 6:
+            rs = [self._interval_truth(c, depth + 1) for c in ch]
+            if k == z3.Z3_OP_AND:
+                if any(r is False for r in rs):
+                    return False
+                return True if all(r is True for r in rs) else None
+            if any(r is True for r in rs):
+                return True
+            return False if all(r is False for r in rs) else None
+        if k in (z3.Z3_OP_LE, z3.Z3_OP_GE, z3.Z3_OP_LT, z3.Z3_OP_GT, z3.Z3_OP_EQ, z3.Z3_OP_DISTINCT) and len(ch) == 2:
+            if not (z3.is_arith(ch[0]) and z3.is_arith(ch[1])):
+                return None
+            a, b = self.ibounds(ch[0]), self.ibounds(ch[1])
+            if k == z3.Z3_OP_GE:
+                a, b, k = b, a, z3.Z3_OP_LE
+            elif k == z3.Z3_OP_GT:
+                a, b, k = b, a, z3.Z3_OP_LT
+            # now: a <= b or a < b or a == b or a != b
+            if k == z3.Z3_OP_LE:
+                if a[1] is not None and b[0] is not None and a[1] <= b[0]:
+                    return True
+                if a[0] is not None and b[1] is not None and a[0] > b[1]:
+                    return False
+                return None
+            if k == z3.Z3_OP_LT:
+                if a[1] is not None and b[0] is not None and a[1] < b[0]:
+                    return True
+                if a[0] is not None and b[1] is not None and a[0] >= b[1]:
+                    return False
+                return None
+            disjoint = (a[1] is not None and b[0] is not None and a[1] < b[0]) or (a[0] is not None and b[1] is not None and a[0] > b[1])
+            same_point = None not in a and None not in b and a[0] == a[1] == b[0] == b[1]
+            if k == z3.Z3_OP_EQ:
+                return False if disjoint else (True if same_point else None)
+            return True if disjoint else (False if same_point else None)
+        return None
+
+    def define_var(self, prefix, term, lo=None, hi=None):
+        """an Int-valued derived quantity `term` as a SymInt. When, after expanding earlier derived variables, the term
+        depends on ONE variable with a small declared range, it is tabulated over that range and re-expressed as a
+        piecewise-affine function of that variable (runs of the table that are affine in the index become one piece each):
+        chains like decode(upper(encode(d))) collapse to `d` instead of nested if-then-else terms."""
+        term = z3.simplify(term)
+        if z3.is_int_value(term):
+            return term.as_long()
+        expanded = z3.substitute(term, *self.defs.values()) if self.defs else term
+        vs = self._free_consts(expanded)
+        if len(vs) == 1 and vs[0] is not None and z3.is_int(vs[0]):
+            v = vs[0]
+            b = self.var_bounds.get(v.decl().name())
+            if b is not None and None not in b and b[1] - b[0] < 64:
+                vlo, vhi = int(b[0]), int(b[1])
+                vals = []
+                for k in range(vlo, vhi + 1):
+                    t = z3.simplify(z3.substitute(expanded, (v, z3.IntVal(k))))
+                    if not z3.is_int_value(t):
+                        vals = None
+                        break
+                    vals.append(t.as_long())
+                if vals is not None:
+                    # affine runs
+                    runs = []           # (start index, slope, intercept)  value = slope * x + intercept
+                    i = 0
+                    n = len(vals)
+                    while i < n:
+                        if i + 1 < n:
+                            slope = vals[i + 1] - vals[i]
+                            j = i + 1
+                            while j + 1 < n and vals[j + 1] - vals[j] == slope:
+                                j += 1
+                        else:
+                            slope, j = 0, i
+                        runs.append((vlo + i, slope, vals[i] - slope * (vlo + i)))
+                        i = j + 1
+                    if len(runs) <= 8:
+                        piece = lambda r: (v * r[1] + r[2]) if r[1] != 0 else z3.IntVal(r[2])
+                        t = piece(runs[-1])
+                        for r, nxt in zip(reversed(runs[:-1]), reversed(runs[1:])):
+                            t = z3.If(v < nxt[0], piece(r), t)
+                        term = z3.simplify(t)
+                        lo, hi = min(vals), max(vals)
+                        if len(runs) == 1:
+                            return mkint(term)
+                        expanded = term
+        nv = z3.Int("_%s_%d" % (prefix, self.fresh_id()))
+        self.add_fact(nv == term)
+        self.defs[nv.decl().name()] = (nv, expanded)
+        if lo is None or hi is None:
+            l2, h2 = self.ibounds(term)
+            lo = l2 if lo is None else lo
+            hi = h2 if hi is None else hi
+        self.set_bounds(nv, lo, hi)
+        return SymInt(nv)
+
+    def set_bounds(self, var, lo, hi):
+        from fractions import Fraction
+        self.var_bounds[var.decl().name()] = (None if lo is None else Fraction(lo), None if hi is None else Fraction(hi))
+
+    # ---------------------------------------------------------------- real-enclosure floats
+    U53 = z3.Q(1, 2 ** 53)
+    TINY = z3.Q(1, 2 ** 120)      # absolute slack >= the subnormal spacing 2^-1074 (kept coarse: small rationals keep simplex fast)
+
+    def is_realkind(self, v):
+        """symbolic float that is not an FP term and not (known) integral"""
+        return isinstance(v, SymFloat) and v.t is None and v.ival is None
+
+    def rn(self, e):
+        """round-to-nearest of the exact real `e` into binary64, as an enclosure (see SymFloat.real). Finite range only."""
+        e = z3.simplify(e)
+        if z3.is_rational_value(e):
+            from fractions import Fraction
+            fr = Fraction(e.numerator_as_long(), e.denominator_as_long())
+            fv = float(fr)          # int/int true division is correctly rounded
+            fq = Fraction(fv)
+            return z3.Q(fq.numerator, fq.denominator)
+        cache = self.rn_cache
+        key = e.get_id()
+        hit = cache.get(key)
+        if hit is not None:
+            return hit[1]
+        from fractions import Fraction
+        lo, hi = self.ibounds(e)
+        z = z3.Real("_rn_%d" % self.fresh_id())
+        self.real_mode = True
+        u, tiny = self.U53, self.TINY
+        if lo is None or hi is None:
+            big = z3.RealVal(2 ** 1000)
+            if not self.must(mkbool(z3.And(e < big, e > -big))):
+                raise Unsupported("float operation whose result is not bounded below 2^1000 (overflow not modelled)")
+            mag = None
+        else:
+            mag = max(abs(lo), abs(hi))
+            if mag >= 2 ** 1000:
+                raise Unsupported("float operation whose result is not bounded below 2^1000 (overflow not modelled)")
+        if lo is not None and lo >= 0:
+            self.add_fact(z3.And(z >= e * (1 - u) - tiny, z <= e * (1 + u) + tiny))
+        elif hi is not None and hi <= 0:
+            self.add_fact(z3.And(z <= e * (1 - u) + tiny, z >= e * (1 + u) - tiny))
+        else:
+            self.add_fact(z3.If(e >= 0,
+                                z3.And(z >= e * (1 - u) - tiny, z <= e * (1 + u) + tiny),
+                                z3.And(z <= e * (1 - u) + tiny, z >= e * (1 + u) - tiny)))
+        # integers of magnitude <= 2^53 are doubles and rounding is monotone: the result stays between floor and ceil
+        if mag is not None and mag <= 2 ** 53:
+            fl = z3.ToReal(self.real_floor(e))
+            self.add_fact(z3.And(z >= fl, z <= fl + 1, z3.Implies(fl == e, z == e)))
+        else:
+            lim = z3.RealVal(2 ** 53)
+            fl = z3.ToReal(self.real_floor(e))
+            self.add_fact(z3.Implies(z3.And(e <= lim, e >= -lim), z3.And(z >= fl, z <= fl + 1, z3.Implies(fl == e, z == e))))
+        if mag is not None:
+            eps = Fraction(1, 2 ** 53) * mag + Fraction(1, 2 ** 120)
+            self.set_bounds(z, lo - eps, hi + eps)
+        cache[key] = (e, z)
+        return z
+
+    def real_of(self, v):
+        """exact real value of a finite float-like value (z3 Real term)"""
+        return self.as_tracked(v).real
+
+    def _mag(self, num, den):
+        """static bound on |num/den| (Fraction) or None"""
+        from fractions import Fraction
+        if isinstance(num, int):
+            return abs(Fraction(num, den))
+        lo, hi = self.ibounds(num)
+        if lo is None or hi is None:
+            return None
+        return max(abs(lo), abs(hi)) / den
+
+    def _divides(self, num, den):
+        """Bool (term or python bool): den | num"""
+        if den == 1:
+            return True
+        if isinstance(num, int):
+            return num % den == 0
+        r = self.divmod_const(SymInt(num), den)[1]
+        if isinstance(r, int):
+            return r == 0
+        return r.t == 0
+
+    def mk_tracked(self, num, den, eps, exact):
+        """a double z with |z - num/den| <= eps and (exact -> z == num/den)  [forward error analysis, see SymFloat.ideal]"""
+        from fractions import Fraction
+        import math
+        g = math.gcd(den, num) if isinstance(num, int) else 1
+        if g > 1:
+            num, den = num // g, den // g
+        if not isinstance(num, int):
+            num = z3.simplify(num)
+            if z3.is_int_value(num):
+                num = num.as_long()
+        idl = (z3.ToReal(num) / den) if not isinstance(num, int) else z3.Q(num, den)
+        if eps == 0:
+            return self._reg(SymFloat(real=z3.simplify(idl), ideal=(num, den, Fraction(0), True)))
+        mag = self._mag(num, den)
+        if mag is not None and mag + eps >= 2 ** 1000:
+            raise Unsupported("float operation whose result is not bounded below 2^1000 (overflow not modelled)")
+        z = z3.Real("_fz_%d" % self.fresh_id())
+        self.real_mode = True
+        e = z3.Q(eps.numerator, eps.denominator)
+        self.add_fact(z3.And(z >= idl - e, z <= idl + e))
+        if exact is True:
+            self.add_fact(z == idl)
+        elif exact is not False:
+            self.add_fact(z3.Implies(exact, z == idl))
+        lo, hi = self.ibounds(idl)
+        if lo is not None and hi is not None:
+            self.set_bounds(z, lo - eps, hi + eps)
+        return self._reg(SymFloat(real=z, ideal=(num, den, eps, exact)))
+
+    def _reg(self, f):
+        """remember the ideal shadow of a real term (keeps the term alive, so its id stays unique)"""
+        if f.ideal is not None and f.real is not None:
+            self.ideal_of[f.real.get_id()] = f.ideal
+            self.keep.append(f.real)
+        return f
+
+    def _rn_eps(self, mag, eps_e, real_expr=None):
+        """error bound of RN(e) w.r.t. the ideal: eps_e + u |e| + tiny, |e| bounded by the ideal's magnitude + eps_e or by
+        the static interval of the real operand expression, whichever is tighter"""
+        from fractions import Fraction
+        bound = mag + eps_e
+        if real_expr is not None:
+            lo, hi = self.ibounds(z3.simplify(real_expr))
+            if lo is not None and hi is not None:
+                bound = min(bound, max(abs(lo), abs(hi)))
+        return eps_e + Fraction(1, 2 ** 53) * bound + Fraction(1, 2 ** 120)
+
+    def as_tracked(self, v):
+        """any finite float-like value as a SymFloat with a `real` term (and an ideal shadow where one is known)"""
+        from fractions import Fraction
+        if isinstance(v, SymFloat):
+            if v.real is not None:
+                return v
+            if v.ival is not None:
+                n = zint(v.ival) if is_sym(v.ival) else int(v.ival)
+                return self._reg(SymFloat(real=z3.ToReal(n) if not isinstance(n, int) else z3.RealVal(n), ideal=(n, 1, Fraction(0), True)))
+            key = None
+            if v.quot is not None:
+                a, k = v.quot
+                num, den = (zint(a) if is_sym(a) else int(a)), k
+                key = ("trk", num.get_id() if not isinstance(num, int) else num, den)
+            elif v.dec is not None:
+                num, den = self.rational(v)
+                num = zint(num) if is_sym(num) else int(num)
+                key = ("trk", num.get_id() if not isinstance(num, int) else num, den)
+            else:
+                raise Unsupported("exact real value of a bit-level (FP term) symbolic float")
+            hit = self.rn_cache.get(key)
+            if hit is not None:
+                return hit[1]
+            mag = self._mag(num, den)
+            if mag is None:
+                r = SymFloat(real=self.rn(z3.ToReal(num) / den))
+            elif den & (den - 1) == 0 and mag * den < 2 ** 53:
+                r = self.mk_tracked(num, den, Fraction(0), True)          # a / 2^j with |a| < 2^53 is a double
+            else:
+                exact = self._divides(num, den) if mag <= 2 ** 53 else False
+                r = self.mk_tracked(num, den, self._rn_eps(mag, Fraction(0)), exact)
+            self.rn_cache[key] = (num, r)
+            return r
+        if isinstance(v, bool):
+            v = int(v)
+        if isinstance(v, float):
+            if v != v or abs(v) == float("inf"):
+                raise Unsupported("nan/inf in real-enclosure float arithmetic")
+            fr = Fraction(v)
+            return SymFloat(real=z3.Q(fr.numerator, fr.denominator), ideal=(fr.numerator, fr.denominator, Fraction(0), True))
+        if isinstance(v, int):
+            fr = Fraction(float(v))
+            return SymFloat(real=z3.Q(fr.numerator, fr.denominator), ideal=(fr.numerator, fr.denominator, Fraction(0), True))
+        if isinstance(v, (SymInt, SymBV, SymBool)):
+            t = zint(v)
+            lo, hi = self.ibounds(t)
+            if (lo is not None and hi is not None and max(abs(lo), abs(hi)) <= 2 ** 53) or \
+                    self.must(self.and_(self.cmp("LtE", v, 2 ** 53), self.cmp("GtE", v, -(2 ** 53)))):
+                return self._reg(SymFloat(real=z3.ToReal(t), ideal=(t, 1, Fraction(0), True)))
+            return SymFloat(real=self.rn(z3.ToReal(t)))
+        raise Unsupported("real_of " + type(v).__name__)
+
+    def mkreal(self, r):
+        r = z3.simplify(r)
+        if z3.is_rational_value(r):
+            n, d = r.numerator_as_long(), r.denominator_as_long()
+            return n / d            # exact: r is a double by construction
+        return SymFloat(real=r)
+
+    def _unwrap(self, f):
+        """concrete python float when a tracked result is a constant; integral tag when it is an exact integer"""
+        if f.ideal is not None and f.ideal[1] == 1 and f.ideal[2] == 0 and not isinstance(f.ideal[0], int):
+            mag = self._mag(f.ideal[0], 1)
+            if mag is not None and mag < 2 ** 53:
+                return SymFloat(ival=mkint(f.ideal[0]))
+        r = z3.simplify(f.real)
+        if z3.is_rational_value(r):
+            return r.numerator_as_long() / r.denominator_as_long()
+        return f
+
+    @staticmethod
+    def _is_const_ideal(idl):
+        return isinstance(idl[0], int) and idl[2] == 0
+
+    def real_binop(self, t, a, b):
+        from fractions import Fraction
+        A, B = self.as_tracked(a), self.as_tracked(b)
+        ra, rb = A.real, B.real
+        if A.ideal is not None and B.ideal is not None and t in (ast.Add, ast.Sub, ast.Mult, ast.Div):
+            (n1, d1, e1, x1), (n2, d2, e2, x2) = A.ideal, B.ideal
+            res = None
+            if t in (ast.Add, ast.Sub):
+                sgn = 1 if t is ast.Add else -1
+                if d1 == d2:
+                    num, den = n1 + sgn * n2, d1
+                else:
+                    num, den = n1 * d2 + sgn * n2 * d1, d1 * d2
+                res = (num, den, e1 + e2, False)
+                no_round = e1 == 0 and e2 == 0 and den == 1          # int +- int below 2^53 is handled by the caller
+            elif t is ast.Mult:
+                if self._is_const_ideal(B.ideal):
+                    c = Fraction(n2, d2)
+                    res = (n1 * c.numerator, d1 * c.denominator, e1 * abs(c), c)
+                elif self._is_const_ideal(A.ideal):
+                    c = Fraction(n1, d1)
+                    res = (n2 * c.numerator, d2 * c.denominator, e2 * abs(c), c)
+                else:
+                    raise Unsupported("product of two symbolic floats (non-linear)")
+            else:
+                if not self._is_const_ideal(B.ideal):
+                    raise Unsupported("division by a symbolic float (non-linear)")
+                if n2 == 0:
+                    raise ZeroDivisionError("float division by zero")
+                c = Fraction(d2, n2)
+                res = (n1 * c.numerator, d1 * c.denominator, e1 / abs(Fraction(n2, d2)), c)
+            num, den, eps_e, c = res
+            if den < 0:
+                num, den = -num, -den
+            xe = self.and_(x1 if isinstance(x1, bool) else mkbool(x1), x2 if isinstance(x2, bool) else mkbool(x2))
+            xe = xe if isinstance(xe, bool) else xe.t
+            mag = self._mag(num, den)
+            if mag is not None:
+                pow2 = False
+                if t in (ast.Mult, ast.Div) and c != 0:
+                    cn, cd = abs(c.numerator), c.denominator
+                    pow2 = (cn == 1 or cd == 1) and (cn & (cn - 1) == 0) and (cd & (cd - 1) == 0)
+                if pow2:
+                    return self._unwrap(self.mk_tracked(num, den, eps_e, xe))       # scaling by 2^k is exact
+                if eps_e == 0 and xe is True and den & (den - 1) == 0 and mag * den < 2 ** 53:
+                    # operands exact, result m / 2^j with |m| < 2^53: representable, the operation does not round
+                    return self._unwrap(self.mk_tracked(num, den, Fraction(0), True))
+                if xe is False or mag > 2 ** 53:
+                    exact = False
+                else:
+                    dv = self._divides(num, den)
+                    exact = dv if xe is True else (False if dv is False else (xe if dv is True else z3.And(xe, dv)))
+                rexpr = {ast.Add: lambda: ra + rb, ast.Sub: lambda: ra - rb, ast.Mult: lambda: ra * rb, ast.Div: lambda: ra / rb}[t]()
+                return self._unwrap(self.mk_tracked(num, den, self._rn_eps(mag, eps_e, rexpr), exact))
+        if t is ast.Add:
+            return self.mkreal(self.rn(ra + rb))
+        if t is ast.Sub:
+            return self.mkreal(self.rn(ra - rb))
+        ca, cb = z3.is_rational_value(z3.simplify(ra)), z3.is_rational_value(z3.simplify(rb))
+        if t is ast.Mult:
+            if not (ca or cb):
+                raise Unsupported("product of two symbolic floats (non-linear)")
+            return self.mkreal(self.rn(ra * rb))
+        if t is ast.Div:
+            if not cb:
+                raise Unsupported("division by a symbolic float (non-linear)")
+            if z3.simplify(rb).numerator_as_long() == 0:
+                raise ZeroDivisionError("float division by zero")
+            return self.mkreal(self.rn(ra / rb))
+        if t is ast.Mod:
+            if not cb:
+                raise Unsupported("float modulo by a symbolic float (non-linear)")
+            c = z3.simplify(rb)
+            if c.numerator_as_long() <= 0:
+                raise Unsupported("float modulo by a non-positive constant")
+            e = ra - c * z3.ToReal(self.real_floor(ra / c))        # fmod is exact; python adds the divisor to a negative remainder
+            lo, hi = self.ibounds(ra)
+            if (lo is not None and lo >= 0) or (lo is None and self.must(mkbool(ra >= 0))):
+                return self.mkreal(e)
+            return self.mkreal(self.rn(e))
+        raise Unsupported("float op " + t.__name__)
+
+    def frac_part(self, f, whole):
+        """f - whole for whole == trunc(f): exact in binary64 (modf); keeps the ideal shadow"""
+        f = self.as_tracked(f)
+        w = zint(whole) if is_sym(whole) else int(whole)
+        fv = z3.Real("_frac_%d" % self.fresh_id())
+        self.real_mode = True
+        self.add_fact(fv == f.real - (z3.ToReal(w) if not isinstance(w, int) else w))
+        self.set_bounds(fv, -1, 1)
+        real = fv
+        if f.ideal is None:
+            return SymFloat(real=real)
+        num, den, eps, exact = f.ideal
+        return self._reg(SymFloat(real=real, ideal=(num - w * den, den, eps, exact)))
+
+    def real_floor(self, x):
+        """floor of a Real term as a fresh Int variable (friendlier to the solver than to_int terms)"""
+        x = z3.simplify(x)
+        if z3.is_rational_value(x):
+            import math
+            from fractions import Fraction
+            return z3.IntVal(math.floor(Fraction(x.numerator_as_long(), x.denominator_as_long())))
+        key = ("floor", x.get_id())
+        hit = self.rn_cache.get(key)
+        if hit is not None:
+            return hit[1]
+        n = z3.Int("_fl_%d" % self.fresh_id())
+        self.real_mode = True
+        self.add_fact(z3.And(z3.ToReal(n) <= x, x < z3.ToReal(n) + 1))
+        import math
+        lo, hi = self.ibounds(x)
+        self.set_bounds(n, None if lo is None else math.floor(lo), None if hi is None else math.floor(hi))
+        idl = self.ideal_of.get(x.get_id())
+        if idl is not None and idl[2] < 1 and not isinstance(idl[0], int) and idl[1] > 1:
+            # redundant hint tying the floor to integer arithmetic on the ideal value: |x - num/den| <= eps < 1
+            q = self.divmod_const(SymInt(idl[0]), idl[1])[0]
+            qt = zint(q)
+            self.add_fact(z3.And(n >= qt - 1, n <= qt + 1))
+        self.rn_cache[key] = (x, n)
+        return n
+
+    def real_to_int(self, x, mode):
+        idl = self.ideal_of.get(x.get_id())
+        if idl is not None and idl[2] == 0 and idl[3] is True:
+            # an exactly known rational num/den: integer arithmetic only
+            num, den = idl[0], idl[1]
+            if isinstance(num, int):
+                import math
+                from fractions import Fraction
+                fr = Fraction(num, den)
+                return {"floor": math.floor, "ceil": math.ceil, "trunc": math.trunc, "round": round}[mode](fr)
+            if den == 1:
+                return mkint(num)
+            q, r = self.divmod_const(SymInt(num), den)
+            qt, rt = zint(q), zint(r)
+            if mode == "floor":
+                return q
+            if mode == "ceil":
+                return mkint(z3.If(rt == 0, qt, qt + 1))
+            if mode == "trunc":
+                return mkint(z3.If(z3.Or(num >= 0, rt == 0), qt, qt + 1))
+            if mode == "round":
+                return mkint(z3.If(2 * rt < den, qt, z3.If(2 * rt > den, qt + 1, z3.If(qt % 2 == 0, qt, qt + 1))))
+        if mode == "floor":
+            return mkint(self.real_floor(x))
+        if mode == "ceil":
+            return mkint(-self.real_floor(-x))
+        if mode == "trunc":
+            lo, hi = self.ibounds(x)
+            if (lo is not None and lo >= 0) or (lo is None and self.must(mkbool(x >= 0))):
+                return mkint(self.real_floor(x))
+            if (hi is not None and hi <= 0) or (hi is None and self.must(mkbool(x <= 0))):
+                return mkint(-self.real_floor(-x))
+            if lo is not None and lo > -1:
+                fl = self.real_floor(x)         # x in (-1, 0) truncates to 0
+                return mkint(z3.If(fl < 0, z3.IntVal(0), fl))
+            if hi is not None and hi < 1:
+                fl = self.real_floor(-x)
+                return mkint(z3.If(fl < 0, z3.IntVal(0), -fl))
+            return mkint(z3.If(x >= 0, self.real_floor(x), -self.real_floor(-x)))
+        if mode == "round":         # round half to even
+            fl = self.real_floor(x)
+            d = x - z3.ToReal(fl)
+            half = z3.Q(1, 2)
+            return mkint(z3.If(d < half, fl, z3.If(d > half, fl + 1, z3.If(fl % 2 == 0, fl, fl + 1))))
+        raise Unsupported("real_to_int " + mode)
+
     def lemma_truncdiv(self, k, bits):
         """forall 0 <= a <= 2^bits: trunc(fp(a)/fp(k)) == a div k, decided once as a QF_BVFP query."""
         key = (k, bits)
@@ -431,19 +1071,19 @@ class OpsMixin:
         """int(f) / math.floor(f) / math.ceil(f)"""
         if v.ival is not None:
             return v.ival
+        if v.real is not None or v.dec is not None:
+            return self.real_to_int(self.real_of(v), mode)
         if v.quot is not None:
             a, k = v.quot
-            if not self.must(self.cmp("GtE", a, 0)):
-                raise Unsupported("int(a/k) with possibly negative a")
             bits = None
-            for bb in (15, 20, 24, 32):
-                if self.must(self.cmp("LtE", a, 2 ** bb)):
-                    bits = bb
-                    break
-            if bits is None:
-                raise Unsupported("int(a/k): a not bounded by 2^32")
-            if not self.lemma_truncdiv(k, bits):
-                raise Unsupported(f"lemma trunc(a/{k}) not proven")
+            if self.must(self.cmp("GtE", a, 0)):
+                for bb in (15, 20, 24, 32):
+                    if self.must(self.cmp("LtE", a, 2 ** bb)):
+                        bits = bb
+                        break
+            if bits is None or not self.lemma_truncdiv(k, bits):
+                # no exact cut available: IEEE enclosure of the correctly rounded quotient
+                return self.real_to_int(self.real_of(v), mode)
             q = self.op("FloorDiv", a, k)
             if mode == "ceil":
                 r = self.op("Mod", a, k)
@@ -628,6 +1268,11 @@ class OpsMixin:
                 # equal rationals round to equal doubles (sufficient; a counterexample must replay natively)
                 r = self.cmp("Eq", self.op("Mult", ra[0], rb[1]), self.op("Mult", rb[0], ra[1]))
                 return self.not_(r) if t is ast.NotEq else r
+        if isinstance(a, SymFloat) and a.dec is not None and isinstance(b, (int, float)) and not isinstance(b, bool) and b == 0:
+            # a decimal-defined float is non-zero: its sign decides
+            neg = a.dec[0]
+            return {ast.Eq: lambda: False, ast.NotEq: lambda: True, ast.Lt: lambda: neg, ast.LtE: lambda: neg,
+                    ast.Gt: lambda: self.not_(neg), ast.GtE: lambda: self.not_(neg)}[t]()
         ia = a.ival if isinstance(a, SymFloat) else (a if isinstance(a, INTLIKE) else None)
         ib = b.ival if isinstance(b, SymFloat) else (b if isinstance(b, INTLIKE) else None)
         if isinstance(a, float) and a.is_integer():
@@ -646,6 +1291,9 @@ class OpsMixin:
         if ib is not None and isinstance(a, float) and a == a and abs(a) != float("inf"):
             flip = {ast.Eq: ast.Eq, ast.NotEq: ast.NotEq, ast.Lt: ast.Gt, ast.LtE: ast.GtE, ast.Gt: ast.Lt, ast.GtE: ast.LtE}[t]
             return self.float_compare(flip, b, a)
+        if (self.is_realkind(a) or self.is_realkind(b)) and not (isinstance(a, SymFloat) and a.t is not None) \
+                and not (isinstance(b, SymFloat) and b.t is not None):
+            return mkbool(ZCMP[t](self.real_of(a), self.real_of(b)))
         return mkbool(FCMP[t](self.to_fp(a), self.to_fp(b)))
 
     def seq_compare(self, t, a, b):
